@@ -280,6 +280,19 @@ impl Bin {
             }
             if rc == 2 && rep == 0 {
                 acc.count("exact_ties_compared", 1);
+                if a.unsigned_abs() > 0x10000 && b.unsigned_abs() > 0x100 {
+                    let kind = match op {
+                        Op::Mul => "tie:mul",
+                        Op::Div => "tie:div",
+                        _ => "tie:mul_div",
+                    };
+                    let got = self.eval(op, a, b, c);
+                    acc.sample(ctx, kind, || json!({"type": self.ty(), "op": op.name(), "operands_bits": [a, b, c], "exact_result_is_a_tie": true, "expected": format!("{:?}", e), "library_bits": got}));
+                }
+            }
+            if rep == 2 {
+                let got = self.eval(op, a, b, c);
+                acc.sample(ctx, if op == Op::Div { "div_by_zero" } else { "mul_div_by_zero" }, || json!({"type": self.ty(), "op": op.name(), "operands_bits": [a, b, c], "expected": format!("{:?}", e), "library_bits": got}));
             }
             if rep != 1 {
                 let shape = (bitlen(a as i64).div_ceil(2) as u64) << 40
